@@ -9,6 +9,8 @@ entropy source."""
 import json, os, subprocess, sys
 from . import common as C
 
+CLAIM_MORE = 'ALSO proved: flag independence for the event-driven SIR simulator and both fast_SIR paths, simple and complex contagion (C18x.v), fast_SIS / fast_nonMarkov_SIS (C18s.v); order of initial_recovereds irrelevant, order of initial_infecteds exhibited as an input; the regenerated table of loops that can run in hash order (Props/HashIterTable.v): no continuous-time simulator reaches a set-ordered loop. A static scan of the source for any other entropy source runs on every check.'
+
 CLAIM = dict(
     text="Machine-checked theorems (coq/Props/C18.v): a simulator model is a function of (ordered inputs, draw script) — `exec` is deterministic by construction — and, by a "
          "general simulation lemma over sampler programs (same calls, same arguments, related continuations => same trace, related results, for every script), Gillespie_SIR "
